@@ -132,7 +132,7 @@ inductive HelperKind where
   | ifH (positive : Bool) | each | withH | lookup | raw | log
   | eq | ne | gt | gte | lt | lte | andH | orH | notH | len
   -- defined by the harness, mirrored here
-  | mark (tag : Str) | probe | evalp | rcstate | vret | counter
+  | mark (tag : Str) | probe | evalp | rcstate | vret | counter | wr
   | macroH (sig : MacroSig)
 
 inductive DecoKind where
@@ -213,6 +213,11 @@ def captured {α : Type} (x : RM α) : RM (α × Str) := fun rc out =>
   | .err e _ => .err e out
   | .panic s => .panic s
   | .fuel => .fuel
+/-- run `x`; on success apply the cleanup `c` to the state (an error result is handed on as it is) -/
+def withCleanup (x : RM Unit) (c : RC → RC) : RM Unit := fun rc0 out0 =>
+  match x rc0 out0 with
+  | .ok () rc1 out1 => .ok () (c rc1) out1
+  | r => r
 /-- `Output::write` : an empty segment reaches no writer call (`write_all` on an empty buffer) -/
 def write (s : Str) : RM Unit := fun rc out =>
   if s.isEmpty then .ok () rc out
@@ -917,6 +922,7 @@ mutual
       | .rcstate => do
         let rc ← get
         write (rcStateLine rc)
+      | .wr => write (((h.params[0]?).map (·.json.render)).getD [])
       | .counter => do
         let rc ← get
         modify (fun rc => { rc with counter := rc.counter + 1 })
@@ -1132,17 +1138,13 @@ mutual
             | some pb => { rc with pbStack := rc.pbStack ++ [(pb, rc.pbBinding)], pbBinding := some rc.pbStack.length }
             | none => rc)
           -- the partial is rendered; its result is examined only after the cleanup
-          fun rc0 out0 =>
-            let cleanup (rc : RC) : RC :=
+          RM.withCleanup (renderTemplate reg root fuel partialT) (fun rc =>
               { rc with
                 pbStack := (if d.template.isSome then rc.pbStack.dropLast else rc.pbStack),
                 pbBinding := bindingBefore,
                 blocks := currentBlocks,
                 currentTemplate := currentBefore,
-                indentString := indentBefore }
-            match renderTemplate reg root fuel partialT rc0 out0 with
-            | .ok () rc1 out1 => .ok () (cleanup rc1) out1
-            | r => r
+                indentString := indentBefore })
 end
 
 end Hbs
